@@ -85,10 +85,11 @@ func checkC14(p *Prog, r *Report) {
 	}
 	/* Readers: closures of Go copying from a pipe field into outw. */
 	type reader struct {
-		fn    *ssa.Function
-		field *types.Var
-		spawn ssa.Instruction /* In Go: errgroup.Go(closure) / go closure() */
-		group ssa.Value
+		fn     *ssa.Function
+		field  *types.Var
+		spawn  ssa.Instruction /* In Go: errgroup.Go(closure) / go closure() */
+		group  ssa.Value
+		anchor ssa.Instruction /* loop header test when started per row of a table */
 	}
 	var readers []reader
 	for _, f := range withAnons(goFn) {
@@ -103,12 +104,27 @@ func checkC14(p *Prog, r *Report) {
 				return
 			}
 			src, _ := loadedField(stripConv(c.Common().Args[1], false))
-			dst, _ := loadedField(stripConv(c.Common().Args[0], false))
-			if nil == src {
+			dst, _ := loadedField(stripConv(resolveCell(c.Common().Args[0]), false))
+			srcs := map[*types.Var]bool{}
+			inTable := false
+			if nil != src {
+				srcs[src] = true
+			} else if arr, ok := elemOfLiteral(c.Common().Args[1]); ok {
+				/* One copier per row of a literal table of readers. */
+				if els, ok := literalElems(arr); ok {
+					inTable = true
+					for _, e := range els {
+						if fv, _ := loadedField(stripConv(e, false)); nil != fv {
+							srcs[fv] = true
+						}
+					}
+				}
+			}
+			if 0 == len(srcs) {
 				return
 			}
 			for which, pf := range pipeFields {
-				if pf != src {
+				if !srcs[pf] {
 					continue
 				}
 				cc := fmt.Sprintf("%s:copies-%s", fnName(goFn), which)
@@ -123,11 +139,46 @@ func checkC14(p *Prog, r *Report) {
 				rd := reader{fn: f, field: pf}
 				if f != goFn {
 					rd.spawn, rd.group = spawnOf(goFn, f)
+					if inTable && nil != rd.spawn {
+						/* Started once per row: whenever the loop is
+						entered, for every row. */
+						rd.anchor = loopAnchor(rd.spawn)
+						if nil == rd.anchor {
+							rPipes.Bad(cc, posOf(i), "the copier for the rows of the reader table is not started on every iteration")
+							continue
+						}
+					}
 				}
 				readers = append(readers, rd)
 				rPipes.OK(cc, posOf(i), "io.Copy(outw, %s) to EOF", pf.Name())
 			}
 		})
+	}
+	/* Hand-written copy loops. */
+	for _, f := range withAnons(goFn) {
+		for _, cl := range findCopyLoops(f) {
+			src, _ := loadedField(stripConv(resolveCell(cl.Src), false))
+			dst, _ := loadedField(stripConv(resolveCell(cl.Dst), false))
+			for which, pf := range pipeFields {
+				if pf != src {
+					continue
+				}
+				cc := fmt.Sprintf("%s:copies-%s", fnName(goFn), which)
+				switch {
+				case dst != outw:
+					rPipes.Bad(cc, posOf(cl.Write), "the %s reader is copied somewhere other than the shell's output writer", which)
+				case 0 != len(cl.Problems):
+					rPipes.Bad(cc, posOf(cl.Read), "the loop copying %s is not a lossless copy to EOF: %s", pf.Name(), strings.Join(cl.Problems, "; "))
+				default:
+					rd := reader{fn: f, field: pf}
+					if f != goFn {
+						rd.spawn, rd.group = spawnOf(goFn, f)
+					}
+					readers = append(readers, rd)
+					rPipes.OK(cc, posOf(cl.Read), "read/write loop from %s to outw: everything read is written, left only on error or EOF", pf.Name())
+				}
+			}
+		}
 	}
 	seenF := map[*types.Var]bool{}
 	for _, rd := range readers {
@@ -192,7 +243,11 @@ func checkC14(p *Prog, r *Report) {
 				continue
 			}
 			joins = append(joins, join)
-			if instrDominates(join, wait) && instrDominates(rd.spawn, join) {
+			spawnAt := rd.spawn
+			if nil != rd.anchor {
+				spawnAt = rd.anchor
+			}
+			if instrDominates(join, wait) && instrDominates(spawnAt, join) {
 				rWait.OK(c, posOf(wait), "Wait is dominated by the join of the %s reader", rd.field.Name())
 			} else {
 				rWait.Bad(c, posOf(wait), "cmd.Wait is not dominated by the join of the goroutine reading %s: Wait closes the pipe while output is still unread", rd.field.Name())
@@ -339,8 +394,56 @@ func spawnOf(parent, f *ssa.Function) (ssa.Instruction, ssa.Value) {
 		if _, isGo := i.(*ssa.Go); isGo {
 			if cf, _ := closureOf(c.Value); cf == f {
 				out = i
+				group = waitGroupOf(parent, f, i)
 			}
 		}
 	})
 	return out, group
+}
+
+// waitGroupOf: the goroutine f, started by spawn, signals a sync.WaitGroup on
+// every way out (a deferred Done, or Done before each return), and the parent
+// has added to that group before the go statement.  Returns the group.
+func waitGroupOf(parent, f *ssa.Function, spawn ssa.Instruction) ssa.Value {
+	var g ssa.Value
+	okDone := false
+	eachInstr(f, func(i ssa.Instruction) {
+		c := callCommon(i)
+		if nil == c || "(*sync.WaitGroup).Done" != calleeName(c) {
+			return
+		}
+		if _, isDefer := i.(*ssa.Defer); isDefer && i.Block() == f.Blocks[0] {
+			g, okDone = resolveCell(c.Args[0]), true
+			return
+		}
+		/* Not deferred: must precede every return. */
+		all := true
+		eachInstr(f, func(j ssa.Instruction) {
+			if isReturn(j) && (nil == f.Recover || j.Block() != f.Recover) && !instrDominates(i, j) {
+				all = false
+			}
+		})
+		if all {
+			g, okDone = resolveCell(c.Args[0]), true
+		}
+	})
+	if !okDone || nil == g {
+		return nil
+	}
+	added := false
+	eachInstr(parent, func(i ssa.Instruction) {
+		c := callCommon(i)
+		if nil == c || "(*sync.WaitGroup).Add" != calleeName(c) || resolveCell(c.Args[0]) != g {
+			return
+		}
+		if _, isCall := i.(*ssa.Call); isCall && instrDominates(i, spawn) {
+			if k, ok := constInt(c.Args[1]); ok && k >= 1 {
+				added = true
+			}
+		}
+	})
+	if !added {
+		return nil
+	}
+	return g
 }
